@@ -64,7 +64,7 @@ class C09(P.Property):
     probe_names = ["scheme_" + s for s in fe.SCHEMES] + ["recreate_before_" + w for w in WORKFLOW[1:]] + [
         "recreate_before_first_search", "recreate_between_searches", "kept_object_whole_workflow", "server_restart_before_first_search",
         "server_restart_between_searches", "recreate_inside_cleanup_window", "absent_keyword", "near_miss_keyword", "nondefault_config",
-        "stall_over_60s", "decoy_service", "decoy_other_config", "idle_connection", "op_failed_under_fault", "server_read_error", "client_object_kept_after_fault", "blocked_by_other_connection", "real_restart_new_interpreter"]
+        "stall_over_60s", "decoy_service", "decoy_other_config", "idle_connection", "op_failed_under_fault", "server_read_error", "client_object_kept_after_fault", "blocked_by_other_connection", "real_restart_new_interpreter", "separate_hosts"]
     thorough_probe_names = ["huge_payload"]
 
     def setup(self):
@@ -154,6 +154,7 @@ class C09(P.Property):
         elif rng.random() < 0.06:
             knobs["read_fault"] = {"search": rng.randrange(len(steps))}
         knobs["real_restart"] = rng.random() < 0.03
+        knobs["separate_hosts"] = rng.random() < 0.3  # deployment: server and client on different machines (neither sees the other's files)
         if tier == "thorough" and rng.random() < float(os.environ.get("VERIF_C09_HUGE_RATE", "0.0004")):
             # a 12.6 MB index and 2 MB results (code paths only large payloads take: message splitting, frame limits)
             knobs.update(scheme="CJJ14.PiBas", cfg_index=0, db={"__huge__": 180000}, decoy=False, stall=None, read_fault=None, blocker=None)
@@ -211,6 +212,8 @@ class C09(P.Property):
         probes["scheme_" + scheme] = 1
         if "__huge__" in knobs["db"]:
             probes["huge_payload"] = 1
+        if knobs.get("separate_hosts"):
+            probes["separate_hosts"] = 1
         L, cfg = fe.default_config(scheme)
         cfg.update(GRID[scheme][knobs["cfg_index"]])
         default_cfg = knobs["cfg_index"] == 0
@@ -484,7 +487,7 @@ class C09(P.Property):
     def simplifications(self, plan):
         k = plan["knobs"]
         for key, val in (("skew", 1.0), ("bufsize", 8192), ("net", dict(lo=0.01, hi=0.01)), ("stall", None), ("restart_after_upload", False),
-                         ("recreate", [False] * 5), ("gaps", [0] * 5), ("cfg_index", 0), ("decoy", False), ("sse2_spare", 0), ("read_fault", None), ("blocker", None), ("real_restart", False)):
+                         ("recreate", [False] * 5), ("gaps", [0] * 5), ("cfg_index", 0), ("decoy", False), ("sse2_spare", 0), ("read_fault", None), ("blocker", None), ("real_restart", False), ("separate_hosts", False)):
             if k.get(key) != val:
                 yield dict(plan, knobs=dict(k, **{key: val}))
         db = k["db"]
